@@ -29,9 +29,9 @@ structure InvCore (s : State) : Prop where
   /-- per-network counters -/
   nCached : ∀ n ∈ s.nets, n.nCached = s.pages.countP (fun p => p.net = n.id)
   nRef : ∀ n ∈ s.nets, n.nRef = s.pages.countP (fun p => p.net = n.id ∧ 0 < p.ref)
-  /-- per-page counter (`uint8_t n_subpages`: exact modulo 256, see `nsub_exact_partial`) -/
+  /-- per-page counter (`uint16_t n_subpages`: exact modulo 65536, see `nsub_exact_partial`) -/
   nSub : ∀ n ∈ s.nets, ∀ pg, (n.getStat pg).nSub
-      = s.pages.countP (fun p => p.net = n.id ∧ p.pgno = pg) % 256
+      = s.pages.countP (fun p => p.net = n.id ∧ p.pgno = pg) % 65536
   /-- cache-wide counters -/
   nPages : s.nCachedPages = s.pages.length
   mem : s.memUsed = ((s.pages.filter (fun p => p.ref = 0)).map Page.size).sum
